@@ -28,7 +28,7 @@ ASSUMPTIONS = [
     "decimal literals that overflow a double and integers beyond CPython's 4300-digit limit are out of domain",
 ]
 QUICK_SHARDS = 2
-MIN_NONTRIVIAL = {"quick": 1500, "thorough": 20000}
+MIN_NONTRIVIAL = {"quick": 3000, "thorough": 100000}
 
 VIOLATION_KINDS = {"wrong-branch", "wrong-group", "not-a-group", "unexpected-unroutable", "missed-unroutable", "exception"}
 
@@ -257,7 +257,7 @@ def run(ctx):
             ctx.count("skeletons/returns-not-reached", len(want - reached))
     ctx.sample(dict(layer="skeleton", text=text))
     # ---- 2 random large scope
-    nprog = ctx.n(300, 40000)
+    nprog = ctx.n(1500, 150000)
     ninputs = 25 if ctx.quick() else 40
     profiles = [
         Profile(max_depth=2, max_arms=3, pred_depth=2),
